@@ -5,6 +5,7 @@
 //!              every type deriving minicbor Encode/Decode)
 //!   * kernels: pure arithmetic/boolean kernels (see kernels.rs)
 mod cbor;
+mod jsontags;
 mod kernels;
 
 use std::path::{Path, PathBuf};
@@ -49,6 +50,13 @@ fn main() {
         Ok((lean, info)) => {
             std::fs::write(out.join("CborSchema.lean"), lean).expect("write");
             manifest.insert("cbor".into(), info);
+        }
+        Err(e) => errors.push(e),
+    }
+    match jsontags::generate(&parsed) {
+        Ok((lean, info)) => {
+            std::fs::write(out.join("JsonTags.lean"), lean).expect("write");
+            manifest.insert("jsontags".into(), info);
         }
         Err(e) => errors.push(e),
     }
